@@ -159,12 +159,12 @@ typedef struct {
 	int		ok;			/* session configured */
 } world_t;
 
-static long g_oc[4][4][5][2];	/* [codec][call kind][status 0..3 / 4=other][complete] transitions observed, flushed per item */
+static long g_oc[8][4][5][2];	/* [codec][call kind][status 0..3 / 4=other][complete] transitions observed, flushed per item */
 static void flush_outcomes (void)
 {
 	int a, b, c, d;
 	static const char *kn[] = {"query", "DWS", "SAS", "FINISH"}, *sn[] = {"OK", "FAILURE", "ERROR", "FATAL", "other"};
-	for (a = 0; a < 4; a++) for (b = 0; b < 4; b++) for (c = 0; c < 5; c++) for (d = 0; d < 2; d++)
+	for (a = 0; a < 8; a++) for (b = 0; b < 4; b++) for (c = 0; c < 5; c++) for (d = 0; d < 2; d++)
 		if (g_oc[a][b][c][d]) {
 			char nm[64];
 			snprintf (nm, sizeof nm, "codec%d:%s=%s:%s", a, kn[b], sn[c], d ? "complete" : "incomplete");
@@ -490,7 +490,7 @@ static void observe (world_t *w, int kind, int st, int full)
 					snprintf (sig, sizeof sig, "codec=%s|call=%s|kind=complete-but-decoded-symbol-never-announced", cn, call); viol ("C11", sig); break;
 				}
 	}
-	g_oc[G.codec & 3][kind & 3][st >= 0 && st <= 3 ? st : 4][complete]++;
+	g_oc[G.codec & 7][kind & 3][st >= 0 && st <= 3 ? st : 4][complete]++;
 	/* model update */
 	for (i = 0; i < k; i++) {
 		w->avail[i] = (unsigned char) (gst == OF_STATUS_OK && w->src_tab[i] != NULL);
@@ -1288,6 +1288,19 @@ static void build_lens (int thorough, const char *which)
 					add_scen (c0, "Sw%d+%d,F", r, k); add_scen (c0, "Bw%d+%d,F", r, k); add_scen (c0, "D0,D0,D%d,D%d,F", k, k);
 				}
 			}
+	if (strstr (which, "2d")) {	/* 2D parity with long symbols: every received subset on the three smallest codes, loss families on the others */
+		static const int L2[] = {100, 127, 128, 129, 255, 256, 257, 512, 1000, 1024, 4096, 65536};
+		int k, r, e;
+		for (li = 0; li < 12; li++) for (k = 1; k <= 16; k++) for (r = 1; r <= 12; r++) {
+			long c0;
+			if (!accepted_2d (k, r)) continue;
+			if (!thorough && !(k + r <= 8 || L2[li] == 128 || L2[li] == 256 || L2[li] == 1000 || li % 4 == (k + r) % 4)) continue;
+			c0 = NCF; add_cfg (5, 0, k, r, 0, 0, 0, 0, 0, 0); CF[c0].len = L2[li];
+			if (k + r <= 8) { uint64_t S; for (S = 0; S < ((uint64_t) 1 << (k + r)); S++) { add_scen (c0, "Sm%llx,F", (unsigned long long) S); add_scen (c0, "Am%llx,F", (unsigned long long) S); } continue; }
+			add_scen (c0, "Aa-,F"); add_scen (c0, "Sa-,F"); add_scen (c0, "Sw%d+%d,F", k, r); add_scen (c0, "Aw%d+%d,F", k, r);
+			for (e = 0; e < k; e++) { add_scen (c0, "Sa-%d,F", e); add_scen (c0, "Aa-%d,F", e); add_scen (c0, "Sa-%d.%d,F", e, k + (e % r)); add_scen (c0, "Ra-%d.%d,F", e, (e + 1) % k); }
+		}
+	}
 	/* the limits */
 	if (strstr (which, "rs") && strstr (which, "ldpc")) {
 		long c0;
